@@ -1,4 +1,5 @@
 import SslModel.Lemmas.FoldSim
+import SslModel.Lemmas.NoCtl
 /-!
 # C04 — the folding pass as a whole preserves the reference semantics
 
@@ -322,6 +323,7 @@ def covered : Expr → Bool
   | .ifSet _ _ e body els => covered e && covered body && coveredO els
   | .matchE e arms => covered e && coveredA arms
   | .loop body => covered body
+  | .while c body => condForm c && covered c && covered body
   | _ => false
 def coveredA : List Arm → Bool
   | [] => true
@@ -1104,6 +1106,251 @@ theorem fold_seq (f : Nat) (ihs : ∀ k, k ≤ f → FoldAt k) : ∀ (blk : Bool
           intro σ a σ' ha
           rw [hp σ a σ' ha]; exact henv
 
+/-! ### `while c body` becomes `loop { if c' body' else break }` -/
+
+def loopForm (c' body' : Expr) : Expr := .ifElse c' body' (some .brk)
+
+theorem eval_loopForm (n : Nat) (env : Env) (c' body' : Expr) :
+    eval (n + 1) env (loopForm c' body') = (do
+      let c ← eval n env c'
+      let c ← liftE (asBool c)
+      if c then eval n env body' else eval n env .brk) := by
+  simp only [loopForm, eval]
+
+theorem eval_brk (n : Nat) (env : Env) : eval (n + 1) env .brk = throwS .brk := by simp only [eval]
+
+theorem loopForm_err (f' : Nat) (env : Env) (c' body' : Expr) (σ σ1 : St) (s : Sig)
+    (hc : eval f' env c' σ = (.error s, σ1)) (hs : isCtl s = false) :
+    loopGo (f' + 3) env (loopForm c' body') σ = (.error s, σ1) := by
+  simp only [loopGo, bodyOnce, eval_loopForm, bindM_def, tryCatchS, hc]
+  cases s <;> simp [isCtl] at hs <;> rfl
+
+theorem loopForm_notBool (f' : Nat) (env : Env) (c' body' : Expr) (σ σ1 : St) (cv : Val) (s : Sig)
+    (hc : eval f' env c' σ = (.ok cv, σ1)) (hb : asBool cv = .error s) :
+    loopGo (f' + 3) env (loopForm c' body') σ = (.error s, σ1) := by
+  have hs : isCtl s = false := asBool_noCtl cv s hb
+  simp only [loopGo, bodyOnce, eval_loopForm, bindM_def, tryCatchS, hc, liftE, hb]
+  cases s <;> simp [isCtl] at hs <;> rfl
+
+theorem loopForm_false (f' : Nat) (env : Env) (c' body' : Expr) (σ σ1 : St)
+    (hc : eval f' env c' σ = (.ok (.bool false), σ1)) :
+    loopGo (f' + 3) env (loopForm c' body') σ = (.ok .unit, σ1) := by
+  cases f' with
+  | zero => simp [eval, throwS] at hc
+  | succ k =>
+    simp only [loopGo, bodyOnce, eval_loopForm, eval_brk, bindM_def, tryCatchS, hc, liftE, asBool]
+    rfl
+
+theorem loopForm_true (f' : Nat) (env : Env) (c' body' : Expr) (σ σ1 : St)
+    (hc : eval f' env c' σ = (.ok (.bool true), σ1)) :
+    loopGo (f' + 3) env (loopForm c' body') σ =
+      (do let go ← bodyOnce (f' + 1) env body'
+          if go then loopGo (f' + 2) env (loopForm c' body') else pure .unit) σ1 := by
+  rw [loopGo]
+  simp only [bindM_def]
+  have hb : bodyOnce (f' + 2) env (loopForm c' body') σ = bodyOnce (f' + 1) env body' σ1 := by
+    simp only [bodyOnce, eval_loopForm, bindM_def, tryCatchS, hc, liftE, asBool]
+    rfl
+  rw [hb]
+
+theorem whileGo_unfold (f : Nat) (env : Env) (c body : Expr) (σ : St) :
+    whileGo (f + 1) env c body σ = (match eval f env c σ with
+      | (.error s, σ1) => (.error s, σ1)
+      | (.ok cv, σ1) => match asBool cv with
+        | .error s => (.error s, σ1)
+        | .ok false => (.ok .unit, σ1)
+        | .ok true => (do let go ← bodyOnce f env body
+                           if go then whileGo f env c body else pure .unit) σ1) := by
+  simp only [whileGo, bindM_def, liftE]
+  cases eval f env c σ with
+  | mk r σ1 =>
+    cases r with
+    | error s => rfl
+    | ok cv =>
+      simp only []
+      cases asBool cv with
+      | error s => rfl
+      | ok b => cases b <;> rfl
+
+theorem asBool_ok (cv : Val) (b : Bool) (h : asBool cv = .ok b) : cv = .bool b := by
+  unfold asBool at h
+  split at h
+  · cases h; rfl
+  · cases h
+
+/-- the loop the pass builds for a `while` whose condition is not a constant -/
+theorem sim_while (env : Env) (c body c' body' : Expr) (hcf : condForm c = true) :
+    ∀ (f : Nat),
+      (∀ k, k ≤ f → Sim (eval k env c) (fun f' => eval f' env c')) →
+      (∀ k, k ≤ f → Sim (bodyOnce k env body) (fun f' => bodyOnce f' env body')) →
+      Sim (whileGo f env c body) (fun f' => loopGo f' env (loopForm c' body')) := by
+  unfold Sim
+  intro f
+  induction f with
+  | zero => intro _ _ σ; exact ⟨0, fun _ _ => Or.inl ⟨σ, by simp only [whileGo, throwS]⟩⟩
+  | succ f ihf =>
+    intro hcond hbody σ
+    have monoL : ∀ a b, a ≤ b → LeR (loopGo a env (loopForm c' body') σ) (loopGo b env (loopForm c' body') σ) :=
+      fun a b h => ((monoAt_le a b h).loopGo env _).apply σ
+    rw [whileGo_unfold]
+    cases hcv : eval f env c σ with
+    | mk rc σ1 =>
+      -- the condition of the folded loop, with enough fuel, ends as the original condition does
+      obtain ⟨f1, h1⟩ := hcond f (Nat.le_succ f) σ
+      by_cases hfuel : ∃ σx, (rc, σ1) = (Except.error Sig.fuel, σx)
+      · obtain ⟨σx, hx⟩ := hfuel
+        cases hx
+        exact ⟨0, fun _ _ => Or.inl ⟨σ1, rfl⟩⟩
+      · have hc' : ∀ f', f1 ≤ f' → eval f' env c' σ = (rc, σ1) := by
+          intro f' hle
+          rcases h1 f' hle with ⟨σx, hx⟩ | hx
+          · rw [hcv] at hx; exact absurd ⟨σx, hx⟩ hfuel
+          · exact hx.symm.trans hcv
+        cases rc with
+        | error s =>
+          have hs : isCtl s = false := (noCtl_all f).eval env c hcf σ s σ1 hcv
+          refine ⟨f1 + 3, fun f' hle => Or.inr ?_⟩
+          obtain ⟨k, rfl⟩ : ∃ k, f' = k + 3 := ⟨f' - 3, by omega⟩
+          simp only []
+          rw [loopForm_err k env c' body' σ σ1 s (hc' k (by omega)) hs]
+        | ok cv =>
+          simp only []
+          cases hb : asBool cv with
+          | error s =>
+            refine ⟨f1 + 3, fun f' hle => Or.inr ?_⟩
+            obtain ⟨k, rfl⟩ : ∃ k, f' = k + 3 := ⟨f' - 3, by omega⟩
+            simp only []
+            rw [loopForm_notBool k env c' body' σ σ1 cv s (hc' k (by omega)) hb]
+          | ok b =>
+            have hcvb := asBool_ok cv b hb
+            subst hcvb
+            cases b with
+            | false =>
+              refine ⟨f1 + 3, fun f' hle => Or.inr ?_⟩
+              obtain ⟨k, rfl⟩ : ∃ k, f' = k + 3 := ⟨f' - 3, by omega⟩
+              simp only []
+              rw [loopForm_false k env c' body' σ σ1 (hc' k (by omega))]
+            | true =>
+              simp only []
+              -- one run of the body, then the loop again
+              obtain ⟨f2, h2⟩ := hbody f (Nat.le_succ f) σ1
+              rw [bindM_def]
+              cases hbo : bodyOnce f env body σ1 with
+              | mk rb σ2 =>
+                by_cases hfuel2 : ∃ σx, (rb, σ2) = (Except.error Sig.fuel, σx)
+                · obtain ⟨σx, hx⟩ := hfuel2
+                  cases hx
+                  exact ⟨0, fun _ _ => Or.inl ⟨σ2, rfl⟩⟩
+                · have hb' : ∀ f', f2 ≤ f' → bodyOnce f' env body' σ1 = (rb, σ2) := by
+                    intro f' hle
+                    rcases h2 f' hle with ⟨σx, hx⟩ | hx
+                    · rw [hbo] at hx; exact absurd ⟨σx, hx⟩ hfuel2
+                    · exact hx.symm.trans hbo
+                  cases rb with
+                  | error e =>
+                    refine ⟨max f1 f2 + 3, fun f' hle => Or.inr ?_⟩
+                    obtain ⟨k, rfl⟩ : ∃ k, f' = k + 3 := ⟨f' - 3, by omega⟩
+                    simp only []
+                    rw [loopForm_true k env c' body' σ σ1 (hc' k (by omega)), bindM_def, hb' (k + 1) (by omega)]
+                  | ok go =>
+                    cases go with
+                    | false =>
+                      refine ⟨max f1 f2 + 3, fun f' hle => Or.inr ?_⟩
+                      obtain ⟨k, rfl⟩ : ∃ k, f' = k + 3 := ⟨f' - 3, by omega⟩
+                      simp only []
+                      rw [loopForm_true k env c' body' σ σ1 (hc' k (by omega)), bindM_def, hb' (k + 1) (by omega)]
+                      rfl
+                    | true =>
+                      obtain ⟨f3, h3⟩ := ihf (fun k hk => hcond k (by omega)) (fun k hk => hbody k (by omega)) σ2
+                      refine ⟨max (max f1 f2) f3 + 3, fun f' hle => ?_⟩
+                      obtain ⟨k, rfl⟩ : ∃ k, f' = k + 3 := ⟨f' - 3, by omega⟩
+                      simp only []
+                      rw [loopForm_true k env c' body' σ σ1 (hc' k (by omega)), bindM_def, hb' (k + 1) (by omega)]
+                      exact h3 (k + 2) (by omega)
+
+theorem sim_while_true (env : Env) (c body body' : Expr) :
+    ∀ (f : Nat),
+      (∀ k, k ≤ f → Pure (eval k env c) (.bool true)) →
+      (∀ k, k ≤ f → Sim (bodyOnce k env body) (fun f' => bodyOnce f' env body')) →
+      Sim (whileGo f env c body) (fun f' => loopGo f' env body') := by
+  intro f
+  induction f with
+  | zero => intro _ _; simp only [whileGo]; exact Sim.fuel _
+  | succ f ihf =>
+    intro hcond hbody
+    have hle : LeM (whileGo (f + 1) env c body)
+        (do let go ← bodyOnce f env body; if go then whileGo f env c body else pure .unit) := by
+      simp only [whileGo]
+      refine (Pure.bind_le (hcond f (Nat.le_succ f))).trans (leM_of_eq fun σ => ?_)
+      simp only [bindM_def, liftE, asBool]; rfl
+    refine Sim.trans_le hle ?_
+    apply Sim.shift
+    simp only [loopGo]
+    refine Sim.bind (hbody f (Nat.le_succ f)) (fun go => ?_)
+    cases go with
+    | false => exact Sim.const _
+    | true => exact ihf (fun k hk => hcond k (by omega)) (fun k hk => hbody k (by omega))
+
+theorem pure_while_false (env : Env) (c body : Expr) (f : Nat)
+    (hcond : ∀ k, k ≤ f → Pure (eval k env c) (.bool false)) : Pure (whileGo f env c body) .unit := by
+  cases f with
+  | zero => simp only [whileGo]; exact Pure.fuel _
+  | succ f =>
+    simp only [whileGo]
+    refine Pure.bind (hcond f (Nat.le_succ f)) ?_
+    intro σ; exact Or.inr rfl
+
+theorem loop_brk_eventually (env : Env) (σ : St) :
+    ∃ f0, ∀ f, f0 ≤ f → eval f env (.loop .brk) σ = (.ok .unit, σ) := by
+  refine ⟨4, fun f hf => ?_⟩
+  obtain ⟨k, rfl⟩ : ∃ k, f = k + 4 := ⟨f - 4, by omega⟩
+  simp only [eval, loopGo, bodyOnce, bindM_def, tryCatchS, throwS]
+  rfl
+
+theorem fold_while (f : Nat) (ihs : ∀ k, k ≤ f → FoldAt k) (g : CEnv) (env : Env) (c body e' : Expr)
+    (hc : covered (.while c body) = true) (henv : EnvOk g env) (hf : fold g (.while c body) = .ok e') :
+    Sim (eval (f + 1) env (.while c body)) (fun f' => eval f' env e') := by
+  simp only [covered, Bool.and_eq_true] at hc
+  obtain ⟨⟨hcf, hcc⟩, hcb⟩ := hc
+  have hbodyOnce : ∀ body', fold g body = .ok body' →
+      ∀ k, k ≤ f → Sim (bodyOnce k env body) (fun f' => bodyOnce f' env body') :=
+    fun body' hb k hk => (ihs k hk).bodyOnce g env body body' hcb henv hb
+  have hpure : ∀ b, fold g c = .ok (.litBool b) → ∀ k, k ≤ f → Pure (eval k env c) (.bool b) :=
+    fun b hcb' k hk => valOf_bool b ▸ pure_of_sim ((ihs k hk).eval g env c _ hcc henv hcb') (by simp only [isConst])
+  have htrue : ∀ body', fold g c = .ok (.litBool true) → fold g body = .ok body' →
+      Sim (eval (f + 1) env (.while c body)) (fun f' => eval f' env (.loop body')) := by
+    intro body' hct hb
+    apply Sim.shift
+    simp only [eval]
+    exact sim_while_true env c body body' f (hpure true hct) (hbodyOnce body' hb)
+  simp only [fold] at hf
+  split at hf
+  · obtain ⟨c', hcfold, hf2⟩ := bind_ok hf
+    split at hf2
+    · obtain ⟨body', hb, hf3⟩ := bind_ok hf2
+      simp only [Except.ok.injEq] at hf3; subst hf3
+      exact htrue body' hcfold hb
+    · simp only [Except.ok.injEq] at hf2; subst hf2
+      apply sim_const (by simp only [isConst])
+      simp only [eval, valOf]
+      exact pure_while_false env c body f (hpure false hcfold)
+    · simp [unsup] at hf2
+  · obtain ⟨c', hcfold, hf2⟩ := bind_ok hf
+    split at hf2
+    · obtain ⟨body', hb, hf3⟩ := bind_ok hf2
+      simp only [Except.ok.injEq] at hf3; subst hf3
+      exact htrue body' hcfold hb
+    · simp only [Except.ok.injEq] at hf2; subst hf2
+      refine Sim.of_pure (v := Val.unit) ?_ (loop_brk_eventually env)
+      simp only [eval]
+      exact pure_while_false env c body f (hpure false hcfold)
+    · obtain ⟨body', hb, hf3⟩ := bind_ok hf2
+      simp only [Except.ok.injEq] at hf3; subst hf3
+      apply Sim.shift
+      simp only [eval]
+      exact sim_while env c body c' body' hcf f
+        (fun k hk => (ihs k hk).eval g env c c' hcc henv hcfold) (hbodyOnce body' hb)
+
 theorem foldAt_succ (f : Nat) (ihs : ∀ k, k ≤ f → FoldAt k) : FoldAt (f + 1) := by
   have ih := ihs f (Nat.le_refl f)
   constructor
@@ -1166,6 +1413,7 @@ theorem foldAt_succ (f : Nat) (ihs : ∀ k, k ≤ f → FoldAt k) : FoldAt (f + 
          sim_auto ih)
     case block body => exact fold_block f ih g env body e' hc henv hf
     case loop body => simp only [fold] at hf; structural ih
+    case «while» c body => exact fold_while f ihs g env c body e' hc henv hf
     case matchE e arms => simp only [fold] at hf; structural ih
     case ifSet x ty e body els =>
       cases els with
